@@ -517,6 +517,18 @@ class _TNames(T):
                 items = h.items
         if items is not None and all(isinstance(i, VStr) for i in items):
             return names_of(items, ctx)
+        sz = None
+        if isinstance(v, VSet) and v.et.zsort == Z.Str:
+            sz = v.z
+        elif isinstance(v, VRef) and ctx is not None and isinstance(ctx.heap[v.rid], HSet) \
+                and ctx.heap[v.rid].et.zsort == Z.Str:
+            sz = ctx.heap[v.rid].z
+        if sz is not None:
+            # a set of names listed in some order
+            n = Z.func('names_of_set', Z.SetSort(Z.Str), NamesSort)(sz)
+            if ctx is not None:
+                ctx.assume(nset(n) == sz)
+            return n
         raise TypeError('not a collection of names: %r' % (v,))
 
     def __repr__(self):
